@@ -184,6 +184,25 @@ func (s *Session) findFunction(c *Contract) *ssa.Function {
 		return nil
 	}
 	key := c.Key
+	if d := strings.Index(key, "$"); d >= 0 {
+		// anonymous function: <outer key>$<n>[$<m>...]
+		outer := *c
+		outer.Key = key[:d]
+		of := s.findFunction(&outer)
+		if of == nil {
+			return nil
+		}
+		cur := of
+		for _, part := range strings.Split(key[d+1:], "$") {
+			n := 0
+			fmt.Sscanf(part, "%d", &n)
+			if n < 1 || n > len(cur.AnonFuncs) {
+				return nil
+			}
+			cur = cur.AnonFuncs[n-1]
+		}
+		return cur
+	}
 	if i := strings.LastIndex(key, "."); i >= 0 && (strings.HasPrefix(key, "(") || !strings.Contains(key[:i], "/")) && i > 0 {
 		recv := key[:i]
 		name := key[i+1:]
@@ -399,6 +418,8 @@ func (s *Session) sweepSites(sd *SweepDecl) []sweepSite {
 					full = fullName(callee)
 				} else if cc.IsInvoke() {
 					full = "(" + types.TypeString(cc.Value.Type(), nil) + ")." + cc.Method.Name()
+				} else if n, ok := types.Unalias(cc.Value.Type()).(*types.Named); ok && n.Obj().Pkg() != nil {
+					full = "functype:" + n.Obj().Pkg().Path() + "." + n.Obj().Name()
 				}
 				if full != "" && want[full] {
 					p := s.pos(ins.Pos())
